@@ -120,12 +120,12 @@ _LONG_LIVED = {}
 _RT_COUNT = [0]
 
 
-def roundtrip(kind, obj, case):
+def roundtrip(kind, obj, case, long_lived=None):
     """returns violations for one object under schema `kind`"""
     out = []
     # one LONG-LIVED schema instance per kind serves every second object (applications keep their schema objects), a fresh one the others
     _RT_COUNT[0] += 1
-    if _RT_COUNT[0] % 2:
+    if long_lived or (long_lived is None and _RT_COUNT[0] % 2):
         sch = _LONG_LIVED.setdefault(kind, _SCH[kind]())
     else:
         sch = _SCH[kind]()
@@ -322,6 +322,8 @@ def run_item(item):
         r.sample(sample, limit=2)
 
     fam = item["fam"]
+    _LONG_LIVED.clear()  # every partition starts with fresh long-lived schema instances (a partition is replayable on its own)
+    _RT_COUNT[0] = 0
     if fam == "trees":
         for i, expr in enumerate(_tree_exprs(item["n"])):
             if i % item["parts"] != item["part"]:
@@ -360,9 +362,10 @@ def run_item(item):
             if j % 7 == 0:
                 cer.packages = {"1P": "[1] U [2]", "23P": "[UB1]"}
                 cer.id = uuid.UUID(int=j + 1)
-                vs += roundtrip("cer", cer, {"what": "generated-cer+packages+id", "m": item["m"], "n": item["n"], "index": j})
+                # results that SHARE an id but differ in content, through one long-lived schema instance (ids are not unique)
+                vs += roundtrip("cer", cer, {"what": "generated-cer+packages+id", "m": item["m"], "n": item["n"], "index": j}, long_lived=True)
                 cer.packages = None
-                vs += roundtrip("cer", cer, {"what": "generated-cer+no-packages", "m": item["m"], "n": item["n"], "index": j})
+                vs += roundtrip("cer", cer, {"what": "generated-cer+no-packages", "m": item["m"], "n": item["n"], "index": j}, long_lived=True)
                 n += 2
             acc(vs, n, item["m"] >= 1 and item["n"] >= 1, {"cer_index": j, "m": item["m"], "n": item["n"]})
     elif fam == "efc":
